@@ -92,6 +92,7 @@ class Plan:
 
 
 PLAN = Plan()
+VSTYLE = ["bool"]
 LOGFILE = None
 
 # Path.touch() is what the cache uses to mark a hit as recently used.  The kernel's file time
@@ -163,7 +164,15 @@ def validate_fn(filepath):
     r = PLAN.val.get(c, "O")
     if r == "I":
         raise IOError("injected validation IOError")
-    return r == "O"
+    # a validation function reports acceptance / rejection with a truth value: the Python singletons, or what
+    # numpy comparisons return (numpy.bool_), or an integer flag
+    ok = r == "O"
+    if VSTYLE[0] == "numpy":
+        import numpy as np
+        return np.all(np.array([ok]))
+    if VSTYLE[0] == "int":
+        return 1 if ok else 0
+    return ok
 
 
 def post_fn(filepath):
@@ -181,6 +190,7 @@ def post_fn(filepath):
 class Runner:
     def __init__(self, hist, root):
         self.h = hist
+        VSTYLE[0] = hist.get("validator_returns", "bool")
         self.dir = os.path.join(root, "cache")
         os.makedirs(self.dir)
         self.L = 1
@@ -230,6 +240,13 @@ class Runner:
             if b == "file_cache_config.json":
                 continue
             p = os.path.join(self.dir, b)
+            if os.path.isdir(p):
+                for bb in sorted(os.listdir(p)):
+                    with open(os.path.join(p, bb), "rb") as f:
+                        data = f.read()
+                    if data != b"s" * len(data):
+                        out["?%s/%s" % (b, bb)] = ("changed", os.path.join(p, bb))
+                continue
             st = os.stat(p)
             # reading must not disturb the access time (it is part of the cache's recency)
             fd = os.open(p, os.O_RDONLY | getattr(os, "O_NOATIME", 0))
@@ -256,6 +273,8 @@ class Runner:
             if b == "file_cache_config.json":
                 continue
             p = os.path.join(self.dir, b)
+            if os.path.isdir(p):
+                continue
             st = os.stat(p)
             t = max(st.st_atime_ns, st.st_mtime_ns)
             if t >= REAL_THRESHOLD_NS:
@@ -452,6 +471,13 @@ class Runner:
                 p = os.path.join(self.dir, FOREIGN_NAMES[op["j"]])
                 with open(p, "wb") as f:
                     f.write(b"u" * (10 + op["c"]))
+                if self.h.get("foreign_subdirectories"):
+                    # a user's sub directory inside the cache directory (a backup copy of cache files, a nested
+                    # second cache): it is not part of this cache, whatever the files in it are called
+                    sub = os.path.join(self.dir, "backup_%d" % op["j"])
+                    os.makedirs(sub, exist_ok=True)
+                    with open(os.path.join(sub, base_of(op["j"] % NRES, op["c"] % 2)), "wb") as f:
+                        f.write(b"s" * (20 + op["c"]))
             return ["D"], False
         except Exception as e:  # noqa
             return ["R", type(e).__name__], False
